@@ -121,3 +121,84 @@ Properties/C11.vos Properties/C11.vok Properties/C11.required_vos: Properties/C1
 Properties/C18.vo Properties/C18.glob Properties/C18.v.beautified Properties/C18.required_vo: Properties/C18.v Model.vo Mon/C18.vo Proofs/Trace.vo Proofs/InvTree.vo
 Properties/C18.vio: Properties/C18.v Model.vio Mon/C18.vio Proofs/Trace.vio Proofs/InvTree.vio
 Properties/C18.vos Properties/C18.vok Properties/C18.required_vos: Properties/C18.v Model.vos Mon/C18.vos Proofs/Trace.vos Proofs/InvTree.vos
+Mon/C08.vo Mon/C08.glob Mon/C08.v.beautified Mon/C08.required_vo: Mon/C08.v Model.vo Spec/Stack.vo
+Mon/C08.vio: Mon/C08.v Model.vio Spec/Stack.vio
+Mon/C08.vos Mon/C08.vok Mon/C08.required_vos: Mon/C08.v Model.vos Spec/Stack.vos
+Spec/FirstViolation.vo Spec/FirstViolation.glob Spec/FirstViolation.v.beautified Spec/FirstViolation.required_vo: Spec/FirstViolation.v Sem.vo Model.vo
+Spec/FirstViolation.vio: Spec/FirstViolation.v Sem.vio Model.vio
+Spec/FirstViolation.vos Spec/FirstViolation.vok Spec/FirstViolation.required_vos: Spec/FirstViolation.v Sem.vos Model.vos
+Mon/Verdict.vo Mon/Verdict.glob Mon/Verdict.v.beautified Mon/Verdict.required_vo: Mon/Verdict.v Sem.vo Spec/FirstViolation.vo
+Mon/Verdict.vio: Mon/Verdict.v Sem.vio Spec/FirstViolation.vio
+Mon/Verdict.vos Mon/Verdict.vok Mon/Verdict.required_vos: Mon/Verdict.v Sem.vos Spec/FirstViolation.vos
+Proofs/VerdictMon.vo Proofs/VerdictMon.glob Proofs/VerdictMon.v.beautified Proofs/VerdictMon.required_vo: Proofs/VerdictMon.v Sem.vo Spec/FirstViolation.vo Mon/Verdict.vo
+Proofs/VerdictMon.vio: Proofs/VerdictMon.v Sem.vio Spec/FirstViolation.vio Mon/Verdict.vio
+Proofs/VerdictMon.vos Proofs/VerdictMon.vok Proofs/VerdictMon.required_vos: Proofs/VerdictMon.v Sem.vos Spec/FirstViolation.vos Mon/Verdict.vos
+Proofs/RulesBasic.vo Proofs/RulesBasic.glob Proofs/RulesBasic.v.beautified Proofs/RulesBasic.required_vo: Proofs/RulesBasic.v Model.vo Spec/FirstViolation.vo
+Proofs/RulesBasic.vio: Proofs/RulesBasic.v Model.vio Spec/FirstViolation.vio
+Proofs/RulesBasic.vos Proofs/RulesBasic.vok Proofs/RulesBasic.required_vos: Proofs/RulesBasic.v Model.vos Spec/FirstViolation.vos
+Proofs/SimExpr.vo Proofs/SimExpr.glob Proofs/SimExpr.v.beautified Proofs/SimExpr.required_vo: Proofs/SimExpr.v Model.vo Spec/FirstViolation.vo Proofs/Reach.vo Proofs/Trace.vo Proofs/VerdictMon.vo
+Proofs/SimExpr.vio: Proofs/SimExpr.v Model.vio Spec/FirstViolation.vio Proofs/Reach.vio Proofs/Trace.vio Proofs/VerdictMon.vio
+Proofs/SimExpr.vos Proofs/SimExpr.vok Proofs/SimExpr.required_vos: Proofs/SimExpr.v Model.vos Spec/FirstViolation.vos Proofs/Reach.vos Proofs/Trace.vos Proofs/VerdictMon.vos
+Proofs/SimStmt.vo Proofs/SimStmt.glob Proofs/SimStmt.v.beautified Proofs/SimStmt.required_vo: Proofs/SimStmt.v Model.vo Spec/FirstViolation.vo Proofs/Reach.vo Proofs/Trace.vo Proofs/VerdictMon.vo Proofs/SimExpr.vo
+Proofs/SimStmt.vio: Proofs/SimStmt.v Model.vio Spec/FirstViolation.vio Proofs/Reach.vio Proofs/Trace.vio Proofs/VerdictMon.vio Proofs/SimExpr.vio
+Proofs/SimStmt.vos Proofs/SimStmt.vok Proofs/SimStmt.required_vos: Proofs/SimStmt.v Model.vos Spec/FirstViolation.vos Proofs/Reach.vos Proofs/Trace.vos Proofs/VerdictMon.vos Proofs/SimExpr.vos
+Proofs/SimDecl.vo Proofs/SimDecl.glob Proofs/SimDecl.v.beautified Proofs/SimDecl.required_vo: Proofs/SimDecl.v Model.vo Spec/FirstViolation.vo Proofs/VerdictMon.vo Proofs/SimExpr.vo Proofs/Driver.vo
+Proofs/SimDecl.vio: Proofs/SimDecl.v Model.vio Spec/FirstViolation.vio Proofs/VerdictMon.vio Proofs/SimExpr.vio Proofs/Driver.vio
+Proofs/SimDecl.vos Proofs/SimDecl.vok Proofs/SimDecl.required_vos: Proofs/SimDecl.v Model.vos Spec/FirstViolation.vos Proofs/VerdictMon.vos Proofs/SimExpr.vos Proofs/Driver.vos
+Proofs/Simulation.vo Proofs/Simulation.glob Proofs/Simulation.v.beautified Proofs/Simulation.required_vo: Proofs/Simulation.v Model.vo Spec/FirstViolation.vo Mon/Verdict.vo Proofs/VerdictMon.vo Proofs/RulesBasic.vo Proofs/SimExpr.vo Proofs/SimStmt.vo Proofs/SimDecl.vo Proofs/Driver.vo
+Proofs/Simulation.vio: Proofs/Simulation.v Model.vio Spec/FirstViolation.vio Mon/Verdict.vio Proofs/VerdictMon.vio Proofs/RulesBasic.vio Proofs/SimExpr.vio Proofs/SimStmt.vio Proofs/SimDecl.vio Proofs/Driver.vio
+Proofs/Simulation.vos Proofs/Simulation.vok Proofs/Simulation.required_vos: Proofs/Simulation.v Model.vos Spec/FirstViolation.vos Mon/Verdict.vos Proofs/VerdictMon.vos Proofs/RulesBasic.vos Proofs/SimExpr.vos Proofs/SimStmt.vos Proofs/SimDecl.vos Proofs/Driver.vos
+Properties/C14.vo Properties/C14.glob Properties/C14.v.beautified Properties/C14.required_vo: Properties/C14.v Model.vo Spec/FirstViolation.vo Mon/Verdict.vo Proofs/VerdictMon.vo Proofs/Simulation.vo
+Properties/C14.vio: Properties/C14.v Model.vio Spec/FirstViolation.vio Mon/Verdict.vio Proofs/VerdictMon.vio Proofs/Simulation.vio
+Properties/C14.vos Properties/C14.vok Properties/C14.required_vos: Properties/C14.v Model.vos Spec/FirstViolation.vos Mon/Verdict.vos Proofs/VerdictMon.vos Proofs/Simulation.vos
+Properties/C02.vo Properties/C02.glob Properties/C02.v.beautified Properties/C02.required_vo: Properties/C02.v Model.vo Spec/FirstViolation.vo Mon/Verdict.vo Proofs/VerdictMon.vo Proofs/Simulation.vo
+Properties/C02.vio: Properties/C02.v Model.vio Spec/FirstViolation.vio Mon/Verdict.vio Proofs/VerdictMon.vio Proofs/Simulation.vio
+Properties/C02.vos Properties/C02.vok Properties/C02.required_vos: Properties/C02.v Model.vos Spec/FirstViolation.vos Mon/Verdict.vos Proofs/VerdictMon.vos Proofs/Simulation.vos
+Properties/C01.vo Properties/C01.glob Properties/C01.v.beautified Properties/C01.required_vo: Properties/C01.v Model.vo Spec/FirstViolation.vo Mon/Verdict.vo Proofs/VerdictMon.vo Proofs/RulesBasic.vo Proofs/Simulation.vo
+Properties/C01.vio: Properties/C01.v Model.vio Spec/FirstViolation.vio Mon/Verdict.vio Proofs/VerdictMon.vio Proofs/RulesBasic.vio Proofs/Simulation.vio
+Properties/C01.vos Properties/C01.vok Properties/C01.required_vos: Properties/C01.v Model.vos Spec/FirstViolation.vos Mon/Verdict.vos Proofs/VerdictMon.vos Proofs/RulesBasic.vos Proofs/Simulation.vos
+Proofs/DefUse.vo Proofs/DefUse.glob Proofs/DefUse.v.beautified Proofs/DefUse.required_vo: Proofs/DefUse.v Model.vo Spec/Stack.vo Mon/C08.vo Proofs/Trace.vo Proofs/InvNames.vo
+Proofs/DefUse.vio: Proofs/DefUse.v Model.vio Spec/Stack.vio Mon/C08.vio Proofs/Trace.vio Proofs/InvNames.vio
+Proofs/DefUse.vos Proofs/DefUse.vok Proofs/DefUse.required_vos: Proofs/DefUse.v Model.vos Spec/Stack.vos Mon/C08.vos Proofs/Trace.vos Proofs/InvNames.vos
+Proofs/MonC08.vo Proofs/MonC08.glob Proofs/MonC08.v.beautified Proofs/MonC08.required_vo: Proofs/MonC08.v Model.vo Spec/Stack.vo Mon/C08.vo Proofs/DefUse.vo
+Proofs/MonC08.vio: Proofs/MonC08.v Model.vio Spec/Stack.vio Mon/C08.vio Proofs/DefUse.vio
+Proofs/MonC08.vos Proofs/MonC08.vok Proofs/MonC08.required_vos: Proofs/MonC08.v Model.vos Spec/Stack.vos Mon/C08.vos Proofs/DefUse.vos
+Properties/C08.vo Properties/C08.glob Properties/C08.v.beautified Properties/C08.required_vo: Properties/C08.v Model.vo Spec/Stack.vo Mon/C08.vo Proofs/DefUse.vo Proofs/MonC08.vo
+Properties/C08.vio: Properties/C08.v Model.vio Spec/Stack.vio Mon/C08.vio Proofs/DefUse.vio Proofs/MonC08.vio
+Properties/C08.vos Properties/C08.vok Properties/C08.required_vos: Properties/C08.v Model.vos Spec/Stack.vos Mon/C08.vos Proofs/DefUse.vos Proofs/MonC08.vos
+Proofs/Resolve.vo Proofs/Resolve.glob Proofs/Resolve.v.beautified Proofs/Resolve.required_vo: Proofs/Resolve.v Model.vo Spec/Stack.vo Proofs/Trace.vo Proofs/InvNames.vo Proofs/InvLabels.vo
+Proofs/Resolve.vio: Proofs/Resolve.v Model.vio Spec/Stack.vio Proofs/Trace.vio Proofs/InvNames.vio Proofs/InvLabels.vio
+Proofs/Resolve.vos Proofs/Resolve.vok Proofs/Resolve.required_vos: Proofs/Resolve.v Model.vos Spec/Stack.vos Proofs/Trace.vos Proofs/InvNames.vos Proofs/InvLabels.vos
+Properties/C10b.vo Properties/C10b.glob Properties/C10b.v.beautified Properties/C10b.required_vo: Properties/C10b.v Model.vo Spec/Stack.vo Mon/Control.vo Proofs/ExecBasic.vo Proofs/InvLabels.vo Proofs/Resolve.vo
+Properties/C10b.vio: Properties/C10b.v Model.vio Spec/Stack.vio Mon/Control.vio Proofs/ExecBasic.vio Proofs/InvLabels.vio Proofs/Resolve.vio
+Properties/C10b.vos Properties/C10b.vok Properties/C10b.required_vos: Properties/C10b.v Model.vos Spec/Stack.vos Mon/Control.vos Proofs/ExecBasic.vos Proofs/InvLabels.vos Proofs/Resolve.vos
+Mon/C03.vo Mon/C03.glob Mon/C03.v.beautified Mon/C03.required_vo: Mon/C03.v Model.vo
+Mon/C03.vio: Mon/C03.v Model.vio
+Mon/C03.vos Mon/C03.vok Mon/C03.required_vos: Mon/C03.v Model.vos
+Mon/C04.vo Mon/C04.glob Mon/C04.v.beautified Mon/C04.required_vo: Mon/C04.v Model.vo Spec/Tables.vo
+Mon/C04.vio: Mon/C04.v Model.vio Spec/Tables.vio
+Mon/C04.vos Mon/C04.vok Mon/C04.required_vos: Mon/C04.v Model.vos Spec/Tables.vos
+Mon/C06.vo Mon/C06.glob Mon/C06.v.beautified Mon/C06.required_vo: Mon/C06.v Model.vo Spec/Stack.vo
+Mon/C06.vio: Mon/C06.v Model.vio Spec/Stack.vio
+Mon/C06.vos Mon/C06.vok Mon/C06.required_vos: Mon/C06.v Model.vos Spec/Stack.vos
+Mon/C19.vo Mon/C19.glob Mon/C19.v.beautified Mon/C19.required_vo: Mon/C19.v Model.vo Spec/Stack.vo
+Mon/C19.vio: Mon/C19.v Model.vio Spec/Stack.vio
+Mon/C19.vos Mon/C19.vok Mon/C19.required_vos: Mon/C19.v Model.vos Spec/Stack.vos
+Mon/C13.vo Mon/C13.glob Mon/C13.v.beautified Mon/C13.required_vo: Mon/C13.v Model.vo
+Mon/C13.vio: Mon/C13.v Model.vio
+Mon/C13.vos Mon/C13.vok Mon/C13.required_vos: Mon/C13.v Model.vos
+Proofs/Probe.vo Proofs/Probe.glob Proofs/Probe.v.beautified Proofs/Probe.required_vo: Proofs/Probe.v Model.vo Mon/C13.vo
+Proofs/Probe.vio: Proofs/Probe.v Model.vio Mon/C13.vio
+Proofs/Probe.vos Proofs/Probe.vok Proofs/Probe.required_vos: Proofs/Probe.v Model.vos Mon/C13.vos
+Proofs/Frames.vo Proofs/Frames.glob Proofs/Frames.v.beautified Proofs/Frames.required_vo: Proofs/Frames.v Model.vo Proofs/Probe.vo
+Proofs/Frames.vio: Proofs/Frames.v Model.vio Proofs/Probe.vio
+Proofs/Frames.vos Proofs/Frames.vok Proofs/Frames.required_vos: Proofs/Frames.v Model.vos Proofs/Probe.vos
+Proofs/Fuel.vo Proofs/Fuel.glob Proofs/Fuel.v.beautified Proofs/Fuel.required_vo: Proofs/Fuel.v Model.vo Proofs/Probe.vo Proofs/Frames.vo
+Proofs/Fuel.vio: Proofs/Fuel.v Model.vio Proofs/Probe.vio Proofs/Frames.vio
+Proofs/Fuel.vos Proofs/Fuel.vok Proofs/Fuel.required_vos: Proofs/Fuel.v Model.vos Proofs/Probe.vos Proofs/Frames.vos
+Proofs/Total.vo Proofs/Total.glob Proofs/Total.v.beautified Proofs/Total.required_vo: Proofs/Total.v Model.vo Proofs/Probe.vo Proofs/Frames.vo Proofs/Fuel.vo
+Proofs/Total.vio: Proofs/Total.v Model.vio Proofs/Probe.vio Proofs/Frames.vio Proofs/Fuel.vio
+Proofs/Total.vos Proofs/Total.vok Proofs/Total.required_vos: Proofs/Total.v Model.vos Proofs/Probe.vos Proofs/Frames.vos Proofs/Fuel.vos
+Properties/C13.vo Properties/C13.glob Properties/C13.v.beautified Properties/C13.required_vo: Properties/C13.v Model.vo Mon/C13.vo Proofs/Probe.vo Proofs/Frames.vo Proofs/Fuel.vo Proofs/Total.vo
+Properties/C13.vio: Properties/C13.v Model.vio Mon/C13.vio Proofs/Probe.vio Proofs/Frames.vio Proofs/Fuel.vio Proofs/Total.vio
+Properties/C13.vos Properties/C13.vok Properties/C13.required_vos: Properties/C13.v Model.vos Mon/C13.vos Proofs/Probe.vos Proofs/Frames.vos Proofs/Fuel.vos Proofs/Total.vos
